@@ -46,7 +46,11 @@ def main(argv=None) -> int:
         project = Project(args.repo)
         mod.run(project, rep, args.tier)
         if args.tier == "thorough" and not args.dry:
-            from .selftest.run import sensitivity
+            from .selftest.run import neutral_run, sensitivity
+            nr = neutral_run(pid, project.repo)
+            rep.extra["neutral_variant"] = nr
+            if nr["exit"] != 0:
+                rep.errors.append(f"SELFTEST neutral variant ({nr['variant']}) is not silent: exit {nr['exit']} {nr['first']}")
             res = sensitivity(pid, project.repo)
             rep.extra["sensitivity"] = res
             rep.extra["sensitivity_summary"] = {
